@@ -244,6 +244,27 @@ def case_misid(col, p):
     _cmp(col, 'C09:misid_func', p, out, ex, np.zeros(shape, bool), False)
     if seen != {'params': [2.0, 3.0], 'ns': ns, 'pts': 17, 'extra': 'e'}:
         col.violation('C09:misid_func:plumbing', p, seen)
+    # call history of ONE wrapped function: same demographic parameters and grid, but other sample sizes / extra arguments / p_misid;
+    # every call must return (1-p) x + p mirror(x) of the model evaluated with the arguments of THAT call
+    def model2(params, ns_, pts, extra=1.0, scale=1.0):
+        sh = tuple(n + 1 for n in ns_)
+        d = (np.arange(1.0, np.prod(sh) + 1).reshape(sh) * params[0] + params[1]) * extra * scale
+        return dadi.Spectrum(d, mask_corners=False)
+    mf2 = Numerics.make_anc_state_misid_func(model2)
+    ns_alt = tuple(n + 1 for n in ns)
+    calls = [(ns, 1.0, 1.0, 0.25), (ns_alt, 1.0, 1.0, 0.25), (ns, 2.0, 1.0, 0.25), (ns, 1.0, 3.0, 0.25), (ns, 1.0, 1.0, 0.5), (ns_alt, 2.0, 3.0, 0.0)]
+    for order in itertools.permutations(range(len(calls)), 2):
+        mf2 = Numerics.make_anc_state_misid_func(model2)
+        for q in order:
+            ns_q, extra, scale, pm = calls[q]
+            out = mf2([2.0, 3.0, pm], ns_q, 17, extra, scale=scale)
+            col.tick(transitions=1)
+            d = RS.fr_array(np.asarray(model2([2.0, 3.0], ns_q, 17, extra, scale=scale).data))
+            ex = (1 - Fraction(pm)) * d + Fraction(pm) * RS.mirror(d)
+            if tuple(out.shape) != tuple(n + 1 for n in ns_q):
+                col.violation('C09:misid_func:result_depends_on_history', dict(p, order=order, call=q), {'shape': tuple(out.shape)})
+                break
+            _cmp(col, 'C09:misid_func:result_depends_on_history', dict(p, order=order, call=q), out, ex, np.zeros(out.shape, bool), False)
     col.tick(states=len(idxs) * 4, traces=len(idxs) * 4)
     col.distinct('nontrivial', ('misid', ns))
 
